@@ -257,6 +257,7 @@ def build(chk):
             # every truncation case must have been reached (vacuity guard on the symbolic t)
             if k and depth_cases != set(range(1, max(2, d))):
                 chk.engine_error('C16.%s: tree counts reached %r, expected 1..%d' % (tag, sorted(depth_cases), max(1, d - 1)))
+    build_helpers(chk)
     bounded_native(chk)
     chk.assumptions += [
         'd = %s columns, each with at least two distinct values (a constant column makes Kendall tau NaN: excluded and '
@@ -291,3 +292,211 @@ def bounded_native(chk):
                         'bound': 'real VineCopula.fit on %d random tables per (d, type, truncation), 60 rows, ties in every '
                                  'second table, seed base %d' % (len(seeds), chk.seed or 0),
                         'evaluations': evals, 'distinct_nontrivial': evals, 'rule': 'one case = (d, type, truncation, table)'})
+
+
+# ------------------------------------------------------------------------------------------------------------------
+# the set-algebra helpers as functions under contract, for ALL column counts d <= 7 and ALL levels at once:
+# edge variables are symbolic integers in 0..6, conditioning sets are symbolic sets (7 membership bits)
+# ------------------------------------------------------------------------------------------------------------------
+
+def sym_edge(I, c, tag, level_k):
+    """an arbitrary well-formed edge of tree k: L < R in 0..6, D a set of k-1 other variables"""
+    L, R = ir.var('%s_L' % tag, 'I'), ir.var('%s_R' % tag, 'I')
+    D = libmodel.SymSet([ir.var('%s_D%d' % (tag, i), 'B') for i in range(7)])
+    e = I.call_qual(TREE + 'Edge', [Sym(ir.var('%s_idx' % tag, 'I')), Sym(L), Sym(R), Sym(ir.var('%s_name' % tag, 'U')),
+                                     Sym(ir.var('%s_theta' % tag))])
+    e.attrs['D'] = D
+    inD = lambda x: ir.or_(*[ir.and_(ir.eq(x, i), D.bits[i]) for i in range(7)])        # noqa: E731
+    c.assume(ir.and_(ir.ge(L, 0), ir.lt(L, R), ir.lt(R, 7), ir.not_(inD(L)), ir.not_(inD(R)), ir.eq(D.size(), ir.sub(level_k, 1))))
+    return e, L, R, D
+
+
+def vars_of(L, R, D):
+    return libmodel.SymSet([ir.or_(ir.eq(L, i), ir.eq(R, i), D.bits[i]) for i in range(7)])
+
+
+def build_helpers(chk, prefix='C16', parts=('identify', 'check_constraint', 'child')):
+    K = ir.var('k', 'I')
+    EDGE = TREE + 'Edge.'
+
+    def run(name, fn):
+        I = engine.new_interp()
+        gm.install_rootfinders(I)
+        vine.install_contracts(I)
+        with vine.mode():
+            res, _ = engine.run_paths(I, lambda c: fn(I, c), max_paths=20000)
+        out = []
+        for r in res:
+            if r.outcome == 'unsupported':
+                chk.undecided.append((prefix + '.helpers.%s.exec' % name, 'executor', str(r.value)))
+            else:
+                out.append(r)
+        if not out and not chk.undecided:
+            chk.engine_error(prefix + '.helpers.%s: no path' % name)
+        return out
+
+    def proximal(p, q):
+        (pL, pR, pD), (qL, qR, qD) = p, q
+        u = vars_of(pL, pR, pD).sym_binop(None, 'BitOr', vars_of(qL, qR, qD), False)
+        return ir.eq(u.size(), ir.add(K, 2))
+
+    def bits_eq(a, b):
+        return ir.and_(*[ir.eq(x, y) for x, y in zip(a.bits, b.bits)])
+
+    # ---- _identify_eds_ing ---------------------------------------------------------------------------------------------
+    def f1(I, c):
+        c.assume(ir.and_(ir.ge(K, 1), ir.le(K, 6)))
+        p, pL, pR, pD = sym_edge(I, c, 'p', K)
+        q, qL, qR, qD = sym_edge(I, c, 'q', K)
+        c.assume(proximal((pL, pR, pD), (qL, qR, qD)))
+        out = I.call(I.getattr(I.resolve(TREE + 'Edge'), '_identify_eds_ing'), [p, q], {})
+        c.out['out'] = out
+        c.out['spec'] = (vars_of(pL, pR, pD), vars_of(qL, qR, qD))
+        return None
+    for j, r in enumerate(run('identify', f1) if 'identify' in parts else []):
+        fq = EDGE + '_identify_eds_ing'
+        if r.outcome != 'return':
+            chk.add(Ob(prefix + '.helpers.identify.no_exception.%d' % j, r.pc, ir.FALSE, function=fq, free_ufs_ok=True,
+                       clause='two edges of tree k that share a node of tree k have exactly two variables not in common: the '
+                              'unpacking of sorted(A ^ B) cannot fail [%s]' % getattr(r.value, 'clsname', '?')))
+            continue
+        left, right, dep = r.state['out']
+        A, B = r.state['spec']
+        sd = A.sym_binop(None, 'BitXor', B, False)
+        it = A.sym_binop(None, 'BitAnd', B, False)
+        got_pair = libmodel.SymSet.from_elems([left, right])
+        chk.add(Ob(prefix + '.helpers.identify.conditioned_pair.%d' % j, r.pc,
+                   ir.and_(ir.lt(left.t, right.t), bits_eq(got_pair, sd)), function=fq, free_ufs_ok=True,
+                   clause='(left, right) are the two distinct variables of the symmetric difference, left < right  [all d <= 7, '
+                          'all levels]'))
+        chk.add(Ob(prefix + '.helpers.identify.conditioning_set.%d' % j, r.pc,
+                   ir.and_(bits_eq(dep, it), ir.eq(dep.size(), K)), function=fq, free_ufs_ok=True,
+                   clause='the conditioning set is the intersection of the parents\' variable sets and has k elements'))
+        if j == 0:
+            chk.add(Ob(prefix + '.helpers.canary.identify_union', r.pc, bits_eq(dep, A.sym_binop(None, 'BitOr', B, False)),
+                       free_ufs_ok=True, canary=True))
+
+    # ---- _check_constraint  <=>  the two edges share a node ---------------------------------------------------------------
+    def f2(I, c):
+        c.assume(ir.and_(ir.ge(K, 1), ir.le(K, 6)))
+        p, pL, pR, pD = sym_edge(I, c, 'p', K)
+        q, qL, qR, qD = sym_edge(I, c, 'q', K)
+        t = I.call_qual(TREE + 'RegularTree', [])
+        t.attrs['level'] = Sym(ir.add(K, 1))
+        c.out['got'] = I.call_method(t, '_check_constraint', [p, q])
+        c.out['want'] = proximal((pL, pR, pD), (qL, qR, qD))
+        return None
+    for j, r in enumerate(run('check_constraint', f2) if 'check_constraint' in parts else []):
+        if r.outcome != 'return':
+            chk.add(Ob(prefix + '.helpers.check_constraint.no_exception.%d' % j, r.pc, ir.FALSE, free_ufs_ok=True,
+                       function=TREE + 'Tree._check_constraint', clause='total'))
+            continue
+        got = r.state['got']
+        gt = got.t if isinstance(got, Sym) else ir.const(bool(got))
+        chk.add(Ob(prefix + '.helpers.check_constraint.iff_proximity.%d' % j, r.pc, ir.eq(gt, r.state['want']), free_ufs_ok=True,
+                   function=TREE + 'Tree._check_constraint',
+                   clause='_check_constraint(e1, e2) in the tree of level k+1 <=> |vars(e1) U vars(e2)| = k+2 (the edges share a '
+                          'node of tree k)'))
+
+    # ---- get_child_edge: the child is a well-formed edge of the next tree --------------------------------------------------
+    def f3(I, c):
+        c.assume(ir.and_(ir.ge(K, 1), ir.le(K, 5)))
+        p, pL, pR, pD = sym_edge(I, c, 'p', K)
+        q, qL, qR, qD = sym_edge(I, c, 'q', K)
+        c.assume(proximal((pL, pR, pD), (qL, qR, qD)))
+        n = Sym(gm.N)
+        for e, nm in ((p, 'p'), (q, 'q')):
+            e.attrs['U'] = libmodel.RowsArr([Lane(ir.var('%s_U0@i' % nm), n), Lane(ir.var('%s_U1@i' % nm), n)])
+        child = I.call(I.getattr(I.resolve(TREE + 'Edge'), 'get_child_edge'), [Sym(ir.var('idx', 'I')), p, q], {})
+        c.out['child'] = child
+        c.out['pq'] = (p, q, vars_of(pL, pR, pD), vars_of(qL, qR, qD))
+        return None
+    for j, r in enumerate(run('get_child_edge', f3) if 'child' in parts else []):
+        fq = EDGE + 'get_child_edge'
+        if r.outcome != 'return':
+            chk.add(Ob(prefix + '.helpers.child.no_exception.%d' % j, r.pc, ir.FALSE, function=fq, free_ufs_ok=True,
+                       clause='get_child_edge succeeds on two proximal edges [%s]' % getattr(r.value, 'clsname', '?')))
+            continue
+        ch = r.state['child']
+        p, q, A, B = r.state['pq']
+        a = ch.attrs
+        L, R, D = a['L'], a['R'], a['D']
+        okp = isinstance(a['parents'], list) and len(a['parents']) == 2 and a['parents'][0] is p and a['parents'][1] is q
+        if not (isinstance(L, Sym) and isinstance(R, Sym) and isinstance(D, libmodel.SymSet)):
+            chk.add(Ob(prefix + '.helpers.child.well_formed.%d' % j, r.pc, ir.FALSE, function=fq, clause='child has L, R, D'))
+            continue
+        inD = lambda x: ir.or_(*[ir.and_(ir.eq(x, i), D.bits[i]) for i in range(7)])      # noqa: E731
+        chk.add(Ob(prefix + '.helpers.child.well_formed.%d' % j, r.pc,
+                   ir.and_(ir.ge(L.t, 0), ir.lt(L.t, R.t), ir.lt(R.t, 7), ir.not_(inD(L.t)), ir.not_(inD(R.t)),
+                           ir.eq(D.size(), K), bits_eq(vars_of(L.t, R.t, D), A.sym_binop(None, 'BitOr', B, False)),
+                           ir.const(bool(okp))),
+                   function=fq, free_ufs_ok=True,
+                   clause='the child of two proximal edges of tree k is a well-formed edge of tree k+1: two distinct conditioned '
+                          'variables outside D, |D| = k, its variables are the union of the parents\', parents recorded in order'))
+
+    # ---- Edge.get_likelihood: the two conditionals are read from cells the parents write -------------------------------------
+    class ReadMatrix(object):
+        is_ndarray = True
+
+        def __init__(self):
+            self.reads = []
+
+        def sym_getitem(self, interp, key):
+            if isinstance(key, tuple) and len(key) == 2 and all(isinstance(k, (Sym, int)) for k in key):
+                i, j = (libmodel.to_term(k) for k in key)
+                self.reads.append((i, j))
+                return Sym(ir.uf('uni', [i, j]))
+            raise engine.paths.Unsupported('uni_matrix index %r' % (key,))
+
+        def sym_getattr(self, interp, name):
+            if name == 'shape':
+                return (7, 7)
+            raise engine.paths.Unsupported('uni_matrix.' + name)
+
+    def f4(I, c):
+        c.assume(ir.and_(ir.ge(K, 1), ir.le(K, 5)))
+        p, pL, pR, pD = sym_edge(I, c, 'p', K)
+        q, qL, qR, qD = sym_edge(I, c, 'q', K)
+        c.assume(proximal((pL, pR, pD), (qL, qR, qD)))
+        A, B = vars_of(pL, pR, pD), vars_of(qL, qR, qD)
+        e, eL, eR, eD = sym_edge(I, c, 'e', ir.add(K, 1))
+        # e is the child of p and q in a regular vine: conditioned pair = symmetric difference, D = intersection, and the
+        # parents' conditioning sets lie inside D (they are the variables of the edge of tree k-1 the parents share)
+        c.assume(ir.and_(*[ir.eq(eD.bits[i], ir.and_(A.bits[i], B.bits[i])) for i in range(7)]))
+        sd = A.sym_binop(None, 'BitXor', B, False)
+        c.assume(ir.and_(*[ir.eq(ir.or_(ir.eq(eL, i), ir.eq(eR, i)), sd.bits[i]) for i in range(7)]))
+        c.assume(ir.and_(*[ir.and_(ir.implies(pD.bits[i], eD.bits[i]), ir.implies(qD.bits[i], eD.bits[i])) for i in range(7)]))
+        e.attrs['parents'] = [p, q]
+        um = ReadMatrix()
+        I.call_method(e, 'get_likelihood', [um])
+        c.out['reads'] = list(um.reads)
+        c.out['e'] = (eL, eR)
+        c.out['p'] = (pL, pR)
+        c.out['q'] = (qL, qR)
+        return None
+    if True:
+        order = 'any'           # p and q are arbitrary: either may be the parent holding L
+        for j, r in enumerate(run('edge_likelihood', f4) if 'edge_likelihood' in parts else []):
+            fq = EDGE + 'get_likelihood'
+            if r.outcome != 'return':
+                chk.add(Ob(prefix + '.helpers.edge_likelihood.no_exception.%s.%d' % (order, j), r.pc, ir.FALSE, function=fq,
+                           free_ufs_ok=True, clause='get_likelihood of a child edge succeeds [%s %s]' %
+                                                    (getattr(r.value, 'clsname', '?'), str(getattr(r.value, 'args', ''))[:60])))
+                continue
+            reads = r.state['reads']
+            (eL, eR), (pL, pR), (qL, qR) = r.state['e'], r.state['p'], r.state['q']
+
+            def written_by(i, j, PL, PR):
+                return ir.or_(ir.and_(ir.eq(i, PL), ir.eq(j, PR)), ir.and_(ir.eq(i, PR), ir.eq(j, PL)))
+            ok = len(reads) == 2
+            goal = ir.FALSE
+            if ok:
+                (i1, j1), (i2, j2) = reads
+                goal = ir.and_(ir.eq(i1, eL), ir.eq(i2, eR),
+                               ir.or_(ir.and_(written_by(i1, j1, pL, pR), written_by(i2, j2, qL, qR)),
+                                      ir.and_(written_by(i1, j1, qL, qR), written_by(i2, j2, pL, pR))))
+            chk.add(Ob(prefix + '.helpers.edge_likelihood.reads_written_cells.%s.%d' % (order, j), r.pc, goal, function=fq,
+                       free_ufs_ok=True,
+                       clause='for an edge of tree k+1 >= 2 the two arguments are uni_matrix[L, x] and uni_matrix[R, y] where (L, x) '
+                              'is the conditioned pair of one parent and (R, y) that of the other: exactly the cells the previous '
+                              'tree writes (C17, C19: no uninitialised read)  [all d <= 7, all levels]'))
